@@ -160,6 +160,7 @@ func c14entries() []c14entry {
 		{"slog.Logger.Log(LevelFatal)", "slogadapter", func(_ slog.Logger, sl *stdslog.Logger, _ *stdlog.Logger, c context.Context) []site { s := here(); sl.Log(c, slog.LevelFatal, cm, "a", 1); return s }, 0},
 		{"slog.Logger.LogAttrs(LevelPanic)", "slogadapter", func(_ slog.Logger, sl *stdslog.Logger, _ *stdlog.Logger, c context.Context) []site { s := here(); sl.LogAttrs(c, slog.LevelPanic, cm, stdslog.Int("a", 1)); return s }, 0},
 		{"slog.Logger.Log(an application level above Error)", "slogadapter", func(_ slog.Logger, sl *stdslog.Logger, _ *stdlog.Logger, c context.Context) []site { s := here(); sl.Log(c, stdslog.Level(29), cm, "a", 1); return s }, 0},
+		{"Log(a log/slog level without a name: Info+1)", "native", func(l slog.Logger, _ *stdslog.Logger, _ *stdlog.Logger, c context.Context) []site { s := here(); l.Log(c, stdslog.LevelInfo+1, cm, "a", 1); return s }, 0},
 		{"helper in another source file, inlined into this statement", "native", func(l slog.Logger, _ *stdslog.Logger, _ *stdlog.Logger, c context.Context) []site { s := here(); c14inlInfo(l); return append([]site{c14inlSite()}, s...) }, 0},
 	}
 }
@@ -328,6 +329,11 @@ func c14sites(c *Ctx) {
 		}
 		// every severity must pass: Always admits all
 		target.SetLevel(slog.AlwaysLevel)
+		if cl.kind == "child" && (idx/3)%2 == 0 { // (a child cell at skip 0 always sits at idx%3 == 2)
+			// the PARENT has a skip count of its own (it serves a facade elsewhere): no business of the child, whichever front end asks
+			base.SetSkip(1 + idx%4)
+			c.R.Add("child_cells_whose_parent_has_a_skip_count_of_its_own", 1)
+		}
 		var skipParent slog.Logger // the logger WithSkip was called on
 		via := "SetSkip"
 		if idx%2 == 1 && (cl.skip == 0 || cl.setFn || cl.kind == "default") {
